@@ -654,6 +654,9 @@ def run(tier, replay):
     # ---- 5. free-running threads: TSan + comparison with the sequential run
     run_mt(ck, wd, thorough)
 
+    # ---- 6. working data shared between instances (Sharing.tla): baton schedule on pairs of real generators, TSan over everything
+    run_sharing(ck, wd, thorough, rng)
+
     # ---- evidence
     ck.set("distinct_nontrivial", nontrivial)
     ck.set("rule", "schedules = observable words (Save/Integrate(ok|etol)/Restore steps per thread; Check/Fill steps for the trace map) of "
@@ -673,6 +676,138 @@ def run(tier, replay):
     if not os.environ.get("C12_KEEP"):
         shutil.rmtree(wd, ignore_errors=True)   # logs of several 100 MB in the thorough tier; replay files are self-contained
     return ck.finish()
+
+
+# ----------------------------------------------------------------------------------------------- working data shared between instances
+
+SHARING_MODELS = [
+    ("MCSharing_PrivateFree.cfg", None, "Sharing: private cell, all interleavings at draw granularity (3 threads x 2 decays x 3 segments)"),
+    ("MCSharing_PrivateBaton.cfg", None, "Sharing: private cell, baton schedule"),
+    ("MCSharing_StaticOneSegment.cfg", None, "Sharing: process-wide cell never read back across a draw"),
+    ("MCSharing_StaticFree.cfg", "Independent", "Sharing: process-wide cell (Independent must fail)"),
+    ("MCSharing_StaticBatonDetects.cfg", "Independent", "Sharing: process-wide cell, the baton schedule alone (Independent must fail)"),
+]
+DBD_SHARE_CFGS = ["Mo100:0:1", "Se82:0:1", "Cd106:0:10", "Cd106:1:12", "Zr96:0:20", "Nd150:1:3", "Mo100:1:7", "Te130:0:6", "Xe136:0:13",
+                  "Ca48:0:15", "Ge76:0:18"]
+
+
+def run_sharing(ck, wd, thorough, rng):
+    """spec/Sharing.tla: working data of a routine kept across deviate draws must be per instance.  TLC: with a process-wide
+    cell the baton schedule (hand over after every deviate) breaks independence whenever two threads are inside a decay of
+    >= 2 segments.  That schedule is forced on pairs of real generators (harness/share_sched.cc): every published background
+    nuclide and a set of double-beta configurations, each paired with partners that call the same emission primitives;
+    every thread's events must equal those of the same generator run alone.  Free-running threads generating every
+    configuration under ThreadSanitizer cover the interleavings finer than a draw."""
+    import catalogue
+    import schemes as sch
+    for cfg, must, label in SHARING_MODELS:
+        r = vlib.tlc("MCSharing", cfg, workers=1, timeout=300, xmx="2g")
+        if r.error:
+            raise vlib.InfraError("%s: %s" % (cfg, r.error))
+        ck.tlc_stats(r, label)
+        if must and r.violated != must:
+            raise vlib.InfraError("%s: the model does not break %s (vacuous)" % (cfg, must))
+        if not must and r.violated:
+            ck.violation("model:Sharing:" + r.violated, "Sharing.tla (%s) violates %s" % (cfg, r.violated), {"trace": r.trace[-4:]})
+    S = sch.Schemes()
+    names = catalogue.lis_background()
+    chains = S.bkg_names(port_only=True)
+    users = {}
+    for nm in names:
+        base = nm.split("+")[0]
+        for (k, _ua) in chains.get(base, []):
+            for e in S.data[k]["edges"]:
+                for it in e["items"]:
+                    if it[0] == "call":
+                        users.setdefault(it[1], set()).add(nm + ":bkg")
+    allcfg = [n + ":bkg" for n in names] + DBD_SHARE_CFGS
+    pairs = set()
+    for prim, us in sorted(users.items()):
+        u = sorted(us)
+        for i in range(len(u)):
+            for d in ((1, max(2, len(u) // 2)) if not thorough else range(1, len(u))):
+                j = (i + d) % len(u)
+                if j != i:
+                    pairs.add((u[i], u[j]))
+    for i, a in enumerate(allcfg):
+        for d in (1, 7, 29):
+            pairs.add((a, allcfg[(i + d) % len(allcfg)]))
+    for a in DBD_SHARE_CFGS:
+        for b in DBD_SHARE_CFGS:
+            if a != b:
+                pairs.add((a, b))
+    if thorough:
+        for a in allcfg:
+            for b in allcfg:
+                if a < b:
+                    pairs.add((a, b))
+    pairs = sorted(pairs)
+    exe = vlib.compile_harness("share_sched", ["harness/share_sched.cc"], "plain")
+    nsh = PAR_THOROUGH if thorough else PAR
+
+    def shard(i):
+        return vlib.sh([exe, "--mode", "baton", "--events", "25" if thorough else "12"], input="\n".join("%s %s" % p for p in pairs[i::nsh]) + "\n",
+                       timeout=3000, env=vlib.harness_env("plain"), drop_stderr=True)
+    res = []
+    with cf.ThreadPoolExecutor(max_workers=nsh) as ex:
+        for i, (rc, out) in enumerate(ex.map(shard, range(nsh))):
+            js = [json.loads(l) for l in out.splitlines() if l.startswith("{")]
+            res += js
+            if rc == 124:
+                raise vlib.InfraError("baton schedule shard %d timed out" % i)
+            if rc != 0:
+                done = len(js)
+                nxt = pairs[i::nsh][done] if done < len(pairs[i::nsh]) else None
+                ck.violation("sharing:crash", "two generators under the baton schedule: process died rc=%s at pair %s" % (rc, nxt),
+                             {"mode": "sharing", "pairs": [list(nxt)] if nxt else []})
+    nd = 0
+    for j in res:
+        ck.add("evaluations")
+        ck.add("baton_pairs")
+        ck.add("baton_handovers", j["handovers"])
+        if not j["alternation_ok"]:
+            raise vlib.InfraError("baton harness did not alternate for %s / %s" % (j["a"], j["b"]))
+        if j["exc"]:
+            raise vlib.InfraError("a sharing configuration was refused: %s / %s" % (j["a"], j["b"]))
+        if j["differ"][0] or j["differ"][1]:
+            nd += 1
+            who = j["a"] if j["differ"][0] else j["b"]
+            other = j["b"] if j["differ"][0] else j["a"]
+            if nd <= 6:
+                ck.violation("sharing:events-differ:%s" % who.split(":")[0],
+                             "generator %s: its events (from event #%d on) differ from those of the same generator and deviate stream run alone when a "
+                             "second generator (%s) on another thread draws a deviate between each two of its own (baton schedule of Sharing.tla): "
+                             "working data shared between instances" % (who, j["first"][0 if j["differ"][0] else 1], other),
+                             {"mode": "sharing", "pairs": [[j["a"], j["b"]]]})
+    ck.set("baton_pairs_differing", nd)
+    ck.sample({"scenario": "baton schedule", "pair": [res[0]["a"], res[0]["b"]] if res else None, "deviates": res[0]["draws"] if res else None,
+               "handovers": res[0]["handovers"] if res else None}, cap=12)
+    # free-running threads over every configuration, ThreadSanitizer
+    exe_t = vlib.compile_harness("share_sched", ["harness/share_sched.cc"], "tsan")
+    env = vlib.harness_env("tsan")
+    rc, out = vlib.sh([exe_t, "--mode", "free", "--threads", "4", "--events", "4" if thorough else "2"], input="\n".join(allcfg) + "\n",
+                      timeout=1500, env=env)
+    if rc == 124:
+        raise vlib.InfraError("free-running sharing run timed out")
+    js = [json.loads(l) for l in out.splitlines() if l.startswith("{")]
+    summ = [j for j in js if j.get("phase") == "free"]
+    if not summ:
+        ck.violation("sharing:crash:free", "free-running threads over every configuration (TSan build) died rc=%s: %s" % (rc, out[-600:]),
+                     {"mode": "sharing-free"})
+    else:
+        ck.add("mt_events_compared_with_sequential_run", summ[-1]["events_compared"])
+        if summ[-1]["differ"]:
+            d = [j for j in js if "differ" in j and "phase" not in j]
+            ck.violation("sharing:free:events-differ", "free-running threads: events differ from the run alone: %s" % d[:3], {"mode": "sharing-free"})
+    reps = tsan_reports(out, vlib.repo())
+    ck.add("tsan_reports", len(reps))
+    seen = set()
+    for sym, what in reps:
+        if sym in seen:
+            continue
+        seen.add(sym)
+        ck.violation("tsan:race:" + sym, "ThreadSanitizer (4 free-running threads, each generating every published background nuclide and %d "
+                     "double-beta configurations with its own generator): %s" % (len(DBD_SHARE_CFGS), what), {"mode": "sharing-free"})
 
 
 MT_CFGS = ["Mo100:0:4:0.5:2.0", "Mo100:0:5", "Cd106:0:4", "Co60:bkg", "Mo100:0:21", "Mo100:0:21"]
@@ -776,6 +911,17 @@ def run_replay(path):
         js = [json.loads(l) for l in out.splitlines() if l.startswith("{") and "phase" in l]
         print("rc=%s tsan reports=%s summary=%s" % (rc, sorted({s for s, _ in reps}), js[-1:] ))
         if reps or rc != 0 or (js and (js[-1].get("differ") or js[-1].get("final_handler", "a") != "a")):
+            print("VIOLATION property=%s replay=%s" % (PID, path))
+            return 1
+        print("OK (not reproduced)")
+        return 0
+    if rp.get("mode") == "sharing":
+        exe = vlib.compile_harness("share_sched", ["harness/share_sched.cc"], "plain")
+        rc, out = vlib.sh([exe, "--mode", "baton", "--events", "25"], input="\n".join("%s %s" % tuple(p) for p in rp["pairs"]) + "\n",
+                          timeout=600, env=vlib.harness_env("plain"), drop_stderr=True)
+        js = [json.loads(l) for l in out.splitlines() if l.startswith("{")]
+        print("rc=%s %s" % (rc, js))
+        if rc != 0 or any(j["differ"][0] or j["differ"][1] for j in js):
             print("VIOLATION property=%s replay=%s" % (PID, path))
             return 1
         print("OK (not reproduced)")
